@@ -43,6 +43,11 @@ def src_mask(rng, shape, kind):
             m[rng.randrange(h), rng.randrange(w)] = False
     elif kind == 'corner':
         m[:h // 3, :w // 3] = False
+    elif kind == 'sparse-block':
+        # most of the image valid, one corner region (a whole block or more) invalid except a handful of pixels
+        m[h // 2:, w // 2:] = False
+        for _ in range(rng.randint(2, 6)):
+            m[rng.randrange(h // 2 + 1, h), rng.randrange(w // 2 + 1, w)] = True
     return m
 
 
